@@ -1197,6 +1197,13 @@ func (m *Memberlist) suspectNode(s *suspect) {
 
 	// If this is us we need to refute, otherwise re-broadcast
 	if state.Name == m.config.Name {
+		// Once Leave has begun we no longer defend ourselves (deadNode and
+		// aliveNode already behave that way): a refutation here would bump
+		// our incarnation past the one Leave is about to announce, and its
+		// departure message would then be discarded as stale.
+		if m.hasLeft() {
+			return
+		}
 		m.refute(state, s.Incarnation)
 		m.logger.Printf("[WARN] memberlist: Refuting a suspect message (from: %s)", s.From)
 		return // Do not mark ourself suspect
